@@ -112,6 +112,9 @@ def main():
     findings = load_findings()
     open_f = [f for f in findings.get("open", []) if f["property"] == prop]
     open_ids = [f["id"] for f in open_f]
+    import glob
+    for old in glob.glob(os.path.join(VERIF, "replays", "%s_*.json" % prop)):
+        os.remove(old)
     work = tempfile.mkdtemp(prefix="symprov_%s_" % prop)
     t0 = time.time()
     jobs = []
